@@ -1,6 +1,7 @@
 package main
 
 import (
+	"io"
 	"context"
 	"errors"
 	"fmt"
@@ -306,10 +307,16 @@ func init() {
 			})
 		}
 		var app *f1.F1
-		if lf := p["logfmt"]; lf == "json" || lf == "text" { // f1's own logger in that format (banner and counts then come from the returned error and the truth counters)
+		if p["loglevel"] == "silent" { // a caller's logger that drops everything, error records included
+			app = f1.New().WithLogger(slog.New(slog.NewTextHandler(io.Discard, &slog.HandlerOptions{Level: slog.LevelError + 4}))).Add("s", topFn)
+		} else if lf := p["logfmt"]; lf == "json" || lf == "text" { // f1's own logger in that format (banner and counts then come from the returned error and the truth counters)
 			os.Setenv("F1_LOG_FORMAT", lf)
+			if lv := p["loglevel"]; lv != "" { // … at the level F1_LOG_LEVEL names
+				os.Setenv("F1_LOG_LEVEL", lv)
+			}
 			app = f1.New().Add("s", topFn)
 			os.Unsetenv("F1_LOG_FORMAT")
+			os.Unsetenv("F1_LOG_LEVEL")
 		} else {
 			app = f1.New().WithLogger(slog.New(sh)).Add("s", topFn)
 		}
@@ -399,6 +406,7 @@ func init() {
 			return "never-returned"
 		}
 		ret := time.Since(t0)
+		inflightRet := inflight.Load() // iteration functions still executing when the command returned
 		envAfter := "clean"
 		for _, k := range fileParams {
 			if _, ok := os.LookupEnv(k); ok {
@@ -451,10 +459,10 @@ func init() {
 				}
 			}
 		}
-		return fmt.Sprintf("%s err=%d banner=%s stats=%d/%d/%d truth=%d/%d setups=%d started=%d maxflight=%d ret=%d envAfter=%s ticks=%d later=%d leak=%d pushed=%s labels=%s stall=%d",
+		return fmt.Sprintf("%s err=%d banner=%s stats=%d/%d/%d truth=%d/%d setups=%d started=%d maxflight=%d ret=%d envAfter=%s ticks=%d later=%d leak=%d pushed=%s labels=%s stall=%d inflightret=%d",
 			verdict, e, banner, st["successful"], st["failed"], st["dropped"], truthS.Load(), truthF.Load(), setups.Load(),
 			started.Load(), maxflight.Load(), ret.Milliseconds(), envAfter, ticks.Load(), laterRan.Load(), leak, pushed, labels,
-			time.Duration(maxGap.Load()).Milliseconds())
+			time.Duration(maxGap.Load()).Milliseconds(), inflightRet)
 	})
 }
 
